@@ -1,4 +1,5 @@
 import DoltVerif.Lemmas.SqlEscape
+import DoltVerif.Model.SqlEscapeCsv
 /-!
 C36 — Dump and re-import reproduce the database: the literal layer.
 
@@ -172,4 +173,76 @@ def row_roundtrip_full : Prop :=
 
 example : parseRow (fmtRow [.int (-42), .str [39, 92, 0], .null, .bin [], .bin [255], .int 0] ++ [59]) =
     some ([.int (-42), .str [39, 92, 0], .null, .bin [], .bin [255], .int 0], [59]) := by decide +kernel
+end DoltVerif.C36
+
+-- ================================================================ CSV export / import, field layer
+
+namespace DoltVerif.C36
+open DoltVerif.SqlEscape.Csv
+
+theorem parseQuoted_escBody (f : Runes) : ∀ (acc rest : Runes),
+    parseQuoted .body (escBody f ++ dq :: comma :: rest) acc = some (acc ++ f, some rest) := by
+  induction f with
+  | nil => intro acc rest; simp [escBody, parseQuoted, comma, dq]
+  | cons r rs ih =>
+    intro acc rest
+    by_cases hr : r = dq
+    · subst hr
+      simp only [escBody, if_true, List.cons_append, parseQuoted]
+      simp only [show ¬ ((34 : Nat) = 44) by decide, if_false, if_true]
+      rw [ih]; simp
+    · simp only [escBody, hr, if_false, List.cons_append, parseQuoted]
+      rw [ih]; simp
+
+theorem parseField_plain (f : Runes) (hc : f.contains comma = false) (hn : f.contains 10 = false) : ∀ (acc rest : Runes),
+    parseField (f ++ comma :: rest) acc = (acc ++ f, some rest) := by
+  induction f with
+  | nil => intro acc rest; simp [parseField]
+  | cons r rs ih =>
+    intro acc rest
+    simp only [List.contains_cons, Bool.or_eq_false_iff, beq_eq_false_iff_ne, ne_eq] at hc hn
+    have hrc : ¬ r = comma := fun e => hc.1 e.symm
+    have h10 : ¬ r = 10 := fun e => hn.1 e.symm
+    simp only [List.cons_append, parseField, hrc, h10, if_false, decide_false, Bool.false_and, Bool.false_eq_true]
+    rw [ih hc.2 hn.2]; simp
+
+/-- **`csv_field_roundtrip`** — every value (any string of code points, the empty string, NULL) written as
+a CSV field by the export writer is read back by the import reader as exactly that value; NULL and the
+empty string stay distinct; leading white space of *any* Unicode kind survives because the writer
+quotes precisely when the reader would trim. -/
+theorem csv_field_roundtrip (v : Option Runes) (rest : Runes) :
+    readField (writeField v ++ comma :: rest) = some (v, some rest) := by
+  cases v with
+  | none =>
+    have hc : isSpace comma = false := by decide
+    simp [writeField, readField, trimLeft, hc, parseField, comma, dq]
+  | some f =>
+    by_cases hq : needsQuotes f = true
+    · have hd : isSpace dq = false := by decide
+      simp only [writeField, hq, if_true, List.cons_append, List.append_assoc, List.singleton_append, List.nil_append, readField,
+        trimLeft, hd, Bool.false_eq_true, if_false]
+      rw [parseQuoted_escBody]; simp
+    · have hq' : needsQuotes f = false := by simpa using hq
+      have hw : writeField (some f) = f := by simp [writeField, hq']
+      rw [hw]
+      simp only [needsQuotes, Bool.or_eq_false_iff] at hq'
+      obtain ⟨⟨⟨⟨⟨⟨hne, _⟩, hcomma⟩, hdq⟩, _⟩, hlf⟩, hsp⟩ := hq'
+      cases f with
+      | nil => simp at hne
+      | cons r rs =>
+        have hrsp : isSpace r = false := by simpa [firstIsSpace] using hsp
+        have hrdq : ¬ r = dq := by
+          simp only [List.contains_cons, Bool.or_eq_false_iff, beq_eq_false_iff_ne, ne_eq] at hdq
+          exact fun e => hdq.1 e.symm
+        simp only [readField, List.cons_append, trimLeft, hrsp, hrdq, Bool.false_eq_true, if_false]
+        have := parseField_plain (r :: rs) hcomma hlf [] rest
+        simp only [List.cons_append, List.nil_append] at this
+        rw [this]
+        simp
+
+example : readField (writeField (some [0xA0, 97]) ++ [44, 122]) = some (some [0xA0, 97], some [122]) := by decide
+example : writeField (some [0x3000]) = [34, 0x3000, 34] ∧ writeField (some []) = [34, 34] ∧ writeField none = [] := by decide
+/-- what the seeded change does: an *unquoted* field starting with U+00A0 loses it -/
+example : readField ([0xA0, 97] ++ [44, 122]) = some (some [97], some [122]) := by decide
+
 end DoltVerif.C36
